@@ -86,6 +86,15 @@ def side_effects(fn):
     """syntactic write-set of a function body: attribute / subscript stores, in-place tensor methods
     (trailing underscore), setattr/delattr, del, global/nonlocal"""
     out = []
+    # containers created fresh inside the function (x = {} / [] / set() / comprehension): storing into them is local
+    params = {a.arg for a in fn.args.args + fn.args.kwonlyargs} if hasattr(fn, "args") else set()
+    fresh = set()
+    for node in ast.walk(fn):
+        if isinstance(node, ast.Assign) and len(node.targets) == 1 and isinstance(node.targets[0], ast.Name) and node.targets[0].id not in params:
+            v = node.value
+            if isinstance(v, (ast.Dict, ast.List, ast.Set, ast.ListComp, ast.DictComp, ast.SetComp)) or \
+                    (isinstance(v, ast.Call) and isinstance(v.func, ast.Name) and v.func.id in ("dict", "list", "set") and not v.args):
+                fresh.add(node.targets[0].id)
     for node in ast.walk(fn):
         tgts = []
         if isinstance(node, ast.Assign):
@@ -96,6 +105,8 @@ def side_effects(fn):
             tgts = node.targets
         for t in tgts:
             for el in (t.elts if isinstance(t, ast.Tuple) else [t]):
+                if isinstance(el, ast.Subscript) and isinstance(el.value, ast.Name) and el.value.id in fresh:
+                    continue
                 if isinstance(el, (ast.Attribute, ast.Subscript)):
                     out.append("store " + ast.unparse(el))
         if isinstance(node, ast.Call):
